@@ -347,6 +347,8 @@ func (x *session) serveCmds() {
 		case "AUTH":
 			mech = strings.ToUpper(strings.SplitN(arg, " ", 2)[0])
 		case "DATA", "RSET", "NOOP", "QUIT", "STARTTLS":
+		case "VRFY", "EXPN", "HELP": // legal RFC 5321 commands the library does not use today: answered 250, never judged unknown
+			v = "NOOP"
 		case "*":
 			v = "ABORT"
 		default:
